@@ -205,7 +205,8 @@ pub fn mutate(rng: &mut Rng, enc: &[u8]) -> Vec<u8> {
     if v.is_empty() {
         return vec![rng.next() as u8];
     }
-    match rng.below(12) {
+    match rng.below(13) {
+        12 => shift_string_boundary(rng, &mut v),
         0 => {
             let i = rng.below(v.len() as u64) as usize;
             v[i] ^= 1 << rng.below(8);
@@ -289,6 +290,57 @@ pub fn mutate(rng: &mut Rng, enc: &[u8]) -> Vec<u8> {
     v
 }
 
+/// Two adjacent length-prefixed fields `[L][s1][L2][s2]`: move the boundary by one byte (the total
+/// stays the same, both length fields stay consistent).  When the byte that changes sides belongs to a
+/// multi-byte character, s1 then ends in a truncated sequence and s2 starts with a continuation byte:
+/// each field alone is invalid UTF-8, their concatenation is valid.
+fn shift_string_boundary(rng: &mut Rng, v: &mut Vec<u8>) {
+    let n = v.len().min(6000);
+    let mut cands: Vec<(usize, usize, bool)> = Vec::new(); // (i, j, moved byte is non-ASCII)
+    for i in 1..n.saturating_sub(4) {
+        let l = ((v[i] as usize) << 8) | v[i + 1] as usize;
+        let j = i + 2 + l;
+        if j + 2 > v.len() {
+            continue;
+        }
+        let l2 = ((v[j] as usize) << 8) | v[j + 1] as usize;
+        if l2 == 0 || j + 2 + l2 > v.len() {
+            continue;
+        }
+        cands.push((i, j, v[j + 2] >= 0x80));
+    }
+    if cands.is_empty() {
+        return;
+    }
+    let hi: Vec<(usize, usize, bool)> = cands.iter().cloned().filter(|c| c.2).collect();
+    let (i, j, _) = if !hi.is_empty() && rng.chance(3, 4) { *rng.pick(&hi) } else { *rng.pick(&cands) };
+    let l = ((v[i] as usize) << 8) | v[i + 1] as usize;
+    let l2 = ((v[j] as usize) << 8) | v[j + 1] as usize;
+    if rng.chance(2, 3) || l == 0 {
+        if l == 65535 {
+            return;
+        }
+        // the first field takes the first byte of the second
+        let b = v[j + 2];
+        v[i] = ((l + 1) >> 8) as u8;
+        v[i + 1] = (l + 1) as u8;
+        v[j] = b;
+        v[j + 1] = ((l2 - 1) >> 8) as u8;
+        v[j + 2] = (l2 - 1) as u8;
+    } else {
+        if l2 == 65535 {
+            return;
+        }
+        // the second field takes the last byte of the first
+        let b = v[j - 1];
+        v[i] = ((l - 1) >> 8) as u8;
+        v[i + 1] = (l - 1) as u8;
+        v[j - 1] = ((l2 + 1) >> 8) as u8;
+        v[j] = (l2 + 1) as u8;
+        v[j + 1] = b;
+    }
+}
+
 /// a random schedule for a stream of `n` bytes
 pub fn gen_sched(rng: &mut Rng, n: usize) -> String {
     let mut items = Vec::new();
@@ -300,7 +352,8 @@ pub fn gen_sched(rng: &mut Rng, n: usize) -> String {
             _ => {
                 let m = *rng.pick(&[1u64, 2, 3, 8, 64, 5000]);
                 let c = 1 + rng.below(m);
-                items.push(format!("c{}", c));
+                // a third of the reads fill the buffer through initialize_unfilled()+advance()
+                items.push(format!("{}{}", if rng.chance(1, 3) { "i" } else { "c" }, c));
                 left -= c as i64;
             }
         }
